@@ -71,3 +71,15 @@ Example C02H_ex_history_nontrivial :
   check_fresh x 3 (run step_fresh x [HRead; HSet 1%N 2; HRead; HSet 1%N 1] {| h_env := []; h_memo := None |}) = true /\
   check_fresh x 3 (run step_fresh x [HRead; HSet 0%N 2] {| h_env := []; h_memo := None |}) = false.
 Proof. vm_compute. split; reflexivity. Qed.
+
+(* H6 (example, over the checked pipeline WITH bundles of Props/C02F.v, which pairs the members of an anonymous bundle with the port's
+   Bundle BY PATH): an extra member NAMED LIKE THE '_'-JOINED PATH of a nested member (`hi_x` beside sub-bundle `hi` with Signal `x`:
+   the name the flattened port gets) is an extra member like any other - refused by BundleFlattener with EExtra - at the outer level
+   and inside the nested anonymous bundle.  The general lemma (any name that is not a member path) is NOT proved; the class is tied on
+   every run (stream pipeline-model-bundles, tag flattened-path-name, coverage target C02F:coverage:anon-extra-flattened-path-name). *)
+Require Hdl21.Props.C01G.
+Require Import Hdl21.Base.C01BDesign Hdl21.Model.C02FPipeline Hdl21.Model.C02FBundles Hdl21.Props.C02F.
+Example C02H_ex_anonymous_extra_member_named_like_a_flattened_path :
+  g1 (set_conns C01G.exg1 2 "m" (top_anon (BXInst "q" ["hi"]) w3s (zq ++ [("hi_x", BXSx (XSig 1%N 1))]))) = (SBFlatten, Some EExtra, Ok tt, true) /\
+  g1 (set_conns C01G.exg1 2 "m" (top_anon (BXInst "q" ["hi"]) w3s (zq ++ [("hi_y", BXSx (XSig 1%N 1))]))) = (SBFlatten, Some EExtra, Ok tt, true).
+Proof. vm_compute. split; reflexivity. Qed.
